@@ -304,6 +304,51 @@ pub fn eval(ctx: &Ctx, case: &Case) {
                         ct.extend_from_slice(&c3);
                         ct.extend_from_slice(&c2);
                     }
+                    f if f.starts_with("forged-without-key/") => {
+                        // forged/<C1 shape>/w=<value>[/kdf-over-canonical-C1]: a C1 that is not a curve point, with the body
+                        // computed for a pairing value anybody knows (the unit of GT, what a decoder that maps bad input to the
+                        // point at infinity ends up with; the public g = e(Ppub, P2); all-zero bytes)
+                        let parts: Vec<&str> = f.split('/').collect();
+                        let ff = [0xffu8; 32];
+                        let (xb, yb): ([u8; 32], [u8; 32]) = match parts[1] {
+                            "x=y=2^256-1" => (ff, ff),
+                            "x-genuine,y=2^256-1" => (cand(&x), ff),
+                            "x=2^256-1,y-genuine" => (ff, cand(&y)),
+                            "(0,0)" => ([0u8; 32], [0u8; 32]),
+                            "(1,1)" => (cand(&BigUint::one()), cand(&BigUint::one())),
+                            "x=p,y=p" => (cand(&pr.p), cand(&pr.p)),
+                            "(x,y+1)" => (cand(&x), cand(&((&y + 1u32) % &pr.p))),
+                            _ => panic!("unknown C1 shape"),
+                        };
+                        let w = match parts[2] {
+                            "w=1" => sm9::f12_bytes(&sm9::f12_one()),
+                            "w=g" => sm9::f12_bytes(&g),
+                            _ => vec![0u8; 384],
+                        };
+                        // KDF input: the C1 bytes as sent, or the canonical bytes of what the decoder turned them into
+                        let mut z: Vec<u8> = match parts.get(3).copied() {
+                            Some("kdf-over-reduced-C1") => [cand(&(refmodels::util::from_be(&xb) % &pr.p)).to_vec(), cand(&(refmodels::util::from_be(&yb) % &pr.p)).to_vec()].concat(),
+                            Some("kdf-over-(1,1)") => [cand(&BigUint::one()).to_vec(), cand(&BigUint::one()).to_vec()].concat(),
+                            Some("kdf-over-zeros") => vec![0u8; 64],
+                            _ => [xb.to_vec(), yb.to_vec()].concat(),
+                        };
+                        z.extend_from_slice(&w);
+                        z.extend_from_slice(&idb);
+                        let k = sm3::kdf(&z, msg.len() + 32);
+                        let (k1, k2) = k.split_at(msg.len());
+                        let c2: Vec<u8> = msg.iter().zip(k1).map(|(a, b)| a ^ b).collect();
+                        let c3 = sm9::mac(k2, &c2);
+                        ct = vec![0x04];
+                        ct.extend_from_slice(&xb);
+                        ct.extend_from_slice(&yb);
+                        ct.extend_from_slice(&c3);
+                        ct.extend_from_slice(&c2);
+                        let c1v: G1 = Some((refmodels::util::from_be(&xb), refmodels::util::from_be(&yb)));
+                        if refmodels::util::from_be(&xb) < pr.p && refmodels::util::from_be(&yb) < pr.p && pr.e1.on_curve(&c1v) {
+                            ctx.machinery_error("forged C1 is a curve point");
+                            return;
+                        }
+                    }
                     "C1-x>=p" => {
                         for b in &mut ct[1..33] {
                             *b = 0xff;
@@ -481,6 +526,13 @@ pub fn run(ctx: &Arc<Ctx>) {
         let r = hexbig(&rs[(bi + 3) % rs.len()].1);
         let total = 97 + l;
         let mut tampers: Vec<String> = vec!["none", "extended", "mlen-256", "mlen-300", "other-identity", "layout-C1C2C3", "layout-C3C1C2", "C3=SM3(K2||C2)", "C1-off-curve(y+1)/orig-body", "C1-off-curve(y+1)/invalid-curve-completed", "C1-off-curve(random)/invalid-curve-completed", "C1=(0,0)", "C1=(0,0)/body-for-w=1", "C1=(0,0)/body-for-w=0", "C1-x>=p", "C1-x+p-alias", "C1-y+p-alias", "C1-other-valid-point", "tag=02", "tag=00"].iter().map(|s| s.to_string()).collect();
+        for shape in ["x=y=2^256-1", "x-genuine,y=2^256-1", "x=2^256-1,y-genuine", "(0,0)", "(1,1)", "x=p,y=p", "(x,y+1)"] {
+            for w in ["w=1", "w=g", "w=0"] {
+                for kd in ["", "/kdf-over-reduced-C1", "/kdf-over-(1,1)", "/kdf-over-zeros"] {
+                    tampers.push(format!("forged-without-key/{}/{}{}", shape, w, kd));
+                }
+            }
+        }
         for b in 0..total * 8 {
             tampers.push(format!("bit:{}", b));
         }
